@@ -57,6 +57,20 @@ def vectors(elems, max_atoms, qs):
     return out
 
 
+def delta(reactants, products):
+    """Products minus reactants as a sorted list of [element, n] (charge as "Q"), zeros left out;
+    ["?", 0] when a side does not parse."""
+    a, b = oracle.comp(reactants), oracle.comp(products)
+    if a is None or b is None:
+        return [["?", 0]]
+    d = {}
+    for (c, q), sign in ((a, -1), (b, 1)):
+        for el, n in c.items():
+            d[el] = d.get(el, 0) + sign * n
+        d["Q"] = d.get("Q", 0) + sign * q
+    return [[el, d[el]] for el in sorted(d) if d[el]]
+
+
 def banned_product(products):
     """oracle: any product molecule is an elemental dihalogen / interhalogen, or two
     free oxygen atoms"""
@@ -270,8 +284,13 @@ def main():
         accepted = len(certain) == 1
         final = (certain + uncertain)[0] if (certain or uncertain) else entry
         add({"ev": "constrain", "products_in": entry["products"], "products_out": final.get("products", ""),
+             "reactants_in": entry["reactants"], "reactants_out": final.get("reactants", ""),
              "accepted": accepted, "rejected": len(uncertain) >= 1,
-             "has_banned_product": banned_product(final.get("products", ""))})
+             "has_banned_product": banned_product(final.get("products", "")),
+             # products minus reactants, element by element and in charge (oracle compositions), before and after
+             "delta_in": delta(entry["reactants"], entry["products"]),
+             "delta_out": delta(final.get("reactants", ""), final.get("products", "")),
+             "new_reaction_is_sides": final.get("new_reaction") == "%s>>%s" % (final.get("reactants", ""), final.get("products", ""))})
     common.write_ndjson(out_file, ev)
     print(json.dumps({"events": len(ev), "vectors": len(uniq), "with_solution": sum(1 for e in ev if e["ev"] == "match" and e["solutions"]),
                       "impute": sum(1 for e in ev if e["ev"] == "impute"), "constrain": sum(1 for e in ev if e["ev"] == "constrain")}))
